@@ -539,3 +539,88 @@ def deep_root(body, op_or_place, depth=0):
         if inner is not None:
             return inner
     return r
+
+
+# ------------------------------------------------------------------ loops
+
+NEXT_CALLS = ("Iterator>::next", "iter::Iterator::next", "DoubleEndedIterator>::next_back")
+
+
+class LoopInfo:
+    def __init__(self, body, header, blocks):
+        self.body = body
+        self.header = header
+        self.blocks = blocks
+        self.next_calls = []      # blocks calling Iterator::next inside the loop (not nested deeper)
+        self.exhaust_exits = []   # (src, dst) edges taken when next() returned None
+        self.other_exits = []     # any other edge leaving the loop
+        self.iter_local = None
+
+
+def loops_of(body):
+    """Natural loops with classification of their exits (A3)."""
+    cfg = body.cfg
+    out = []
+    du = defuse(body)
+    for header, blocks in cfg.loops().items():
+        li = LoopInfo(body, header, blocks)
+        none_edges = set()
+        for bi in blocks:
+            t = body.blocks[bi]["term"]
+            if t["k"] == "call" and callee_is(t, *NEXT_CALLS) and not t["dest"].get("p"):
+                li.next_calls.append(bi)
+                oc = success_edges(body, bi)
+                for (_e, src, k) in oc.err_edges:
+                    none_edges.add((src, cfg.succ[src][k]))
+                if li.iter_local is None and t["args"]:
+                    r = root_place(body, op_place(t["args"][0])) if op_place(t["args"][0]) else None
+                    if r is not None:
+                        li.iter_local = r["l"]
+        for (src, dst) in cfg.loop_exits(header):
+            if (src, dst) in none_edges:
+                li.exhaust_exits.append((src, dst))
+            else:
+                # exits into diverging blocks (panics) are not early exits of the sweep
+                reach = cfg.reachable_from([dst])
+                if not any(b in cfg.exits for b in reach):
+                    continue
+                li.other_exits.append((src, dst))
+        out.append(li)
+    return out
+
+
+def iter_source(body, li):
+    """Place the loop's iterator was built from (deep root through iter()/into_iter()/keys()/...)."""
+    if li.iter_local is None:
+        return None
+    l = li.iter_local
+    seen = 0
+    cur = {"l": l}
+    while seen < 12:
+        seen += 1
+        d = defuse(body).single_def(cur["l"])
+        if d is None:
+            return cur
+        if d[0] == "call":
+            if d[2]["args"]:
+                p = op_place(d[2]["args"][0])
+                if p is None:
+                    return cur
+                cur = root_place(body, p)
+                if cur.get("p"):
+                    return cur
+                continue
+            return cur
+        rv = d[3]["rv"]
+        if rv["k"] == "use" and op_place(rv["op"]) is not None:
+            cur = root_place(body, op_place(rv["op"]))
+            if cur.get("p"):
+                return cur
+            continue
+        if rv["k"] in ("ref",):
+            cur = root_place(body, rv["place"])
+            if cur.get("p"):
+                return cur
+            continue
+        return cur
+    return cur
